@@ -41,6 +41,8 @@ class Interp(object):
         self.log_names = ('LOG', 'log', 'logging')
         self.while_unroll = WHILE_UNROLL
         self.merge_loops = False
+        self.max_depth = MAX_DEPTH
+        self.loop_hook = None
         self.record_enter = False
         self.unpack_may_raise = False
         self.opaque_funcs_may_raise = set()
@@ -418,8 +420,7 @@ class Interp(object):
 
     def call_func(self, fv, args, kwargs, st, line=None):
         f = fv.finfo
-        if len(st.frames) > MAX_DEPTH or any(fr.get('$func') is f for fr in st.frames[-6:]
-                                             if False):
+        if len(st.frames) > self.max_depth:
             st.flags.add('depth-bound')
             return self.call_opaque(fv, args, kwargs, st, line)
         # recursion guard
@@ -720,6 +721,13 @@ class Interp(object):
         out = []
 
         def loop(s, n):
+            if self.loop_hook is not None:
+                cur = self._cursor_vals(stmt, s)
+                key = '$w%d' % id(stmt)
+                if n == 0:
+                    s.env[key] = cur
+                else:
+                    self.loop_hook(self, stmt, s.env.get(key), cur, s)
             for t, s1 in self.truth_expr(stmt.test, s):
                 if t == 'raise':
                     out.append(('raise', s1[1], s1[2]))
@@ -743,6 +751,35 @@ class Interp(object):
         loop(st, 0)
         if self.merge_loops:
             out = merge_outcomes(out, self.base_counter)
+        return out
+
+    def _cursor_vals(self, stmt, st):
+        """Values of the candidate cursor expressions of a while loop (names / attribute chains
+        of the test; for `while True` those of the tests guarding a break)."""
+        tests = [stmt.test]
+        if isinstance(stmt.test, ast.Constant):
+            tests = []
+            for n in ast.walk(ast.Module(body=stmt.body, type_ignores=[])):
+                if isinstance(n, ast.If) and any(isinstance(b, ast.Break) for b in ast.walk(n)):
+                    tests.append(n.test)
+        out = {}
+        for t in tests:
+            for n in ast.walk(t):
+                if isinstance(n, (ast.Name, ast.Attribute)) and isinstance(getattr(n, 'ctx', None), ast.Load):
+                    src = src_of(n)
+                    if src in out or src in ('len', 'True', 'False', 'None'):
+                        continue
+                    if isinstance(n, ast.Attribute) and any(
+                            isinstance(p, ast.Attribute) and p.value is n for p in ast.walk(t)):
+                        continue
+                    if isinstance(n, ast.Name) and any(
+                            isinstance(p, (ast.Attribute, ast.Call)) and
+                            (getattr(p, 'value', None) is n or getattr(p, 'func', None) is n)
+                            for p in ast.walk(t)):
+                        continue
+                    r = self.ev(n, st)
+                    if len(r) == 1 and r[0][0] == 'val':
+                        out[src] = r[0][1]
         return out
 
     def ex_For(self, stmt, st):
@@ -929,9 +966,15 @@ def fingerprint(kind, val, st, base_counter=None):
             tuple(sorted(st.flags)))
 
 
-def _join(name, a, b):
+def _join(name, a, b, ma=None, mb=None):
     if _fpv(a) == _fpv(b):
         return a
+    if ma is not None and isinstance(a, (Sym, Const)) and isinstance(b, (Sym, Const)):
+        ia, ib = prims.ival(a, ma), prims.ival(b, mb)
+        if ia is not None and ib is not None:
+            nm = 'join(%s|%s)' % (a.desc(), b.desc())
+            ma.cons[nm] = (min(ia[0], ib[0]), max(ia[1], ib[1]), frozenset())
+            return Sym(nm, ('join', [a, b]))
     kind = getattr(a, 'kind', None) if getattr(a, 'kind', None) == getattr(b, 'kind', None) else None
     return Opaque('join(%s)' % name, kind)
 
@@ -969,7 +1012,7 @@ def merge_outcomes(outs, base_counter=None):
             for k in set(fr) | set(fo):
                 if k != '$func':
                     if k in fr and k in fo:
-                        fr[k] = _join(k, fr[k], fo[k])
+                        fr[k] = _join(k, fr[k], fo[k], m, st)
                     else:
                         fr[k] = Opaque('join(%s)' % k)
         for oid, h in m.heap.items():
@@ -979,7 +1022,7 @@ def merge_outcomes(outs, base_counter=None):
             if h.kind == 'inst':
                 for k in set(h.fields) | set(o.fields):
                     if k in h.fields and k in o.fields:
-                        h.fields[k] = _join('%s.%s' % (oid, k), h.fields[k], o.fields[k])
+                        h.fields[k] = _join('%s.%s' % (oid, k), h.fields[k], o.fields[k], m, st)
                     else:
                         h.fields[k] = Opaque('join(%s.%s)' % (oid, k))
             elif h.kind == 'list':
